@@ -131,6 +131,32 @@ func RunOpAPISpare(r OpReq) Outcome {
 	return runOpOn(r, full[:len(ins)])
 }
 
+// RunOpAPIClones executes the request twice (a fresh operator each) on operands that are
+// Clone()s of the caller's tensors - as a caller does that keeps its originals. A clone
+// differs from a tensor built with tensor.New in hidden ways (its shape and stride slices
+// come from append and may have spare capacity); none of that is part of its value. The
+// second call sees the same objects again: whatever the first did to them shows there.
+func RunOpAPIClones(r OpReq) (first, second Outcome) {
+	ins := ToTensors(r.Inputs)
+	seen := map[tensor.Tensor]tensor.Tensor{}
+	for i, t := range ins {
+		if t == nil {
+			continue
+		}
+		if c, ok := seen[t]; ok {
+			ins[i] = c
+			continue
+		}
+		if c, ok := t.Clone().(tensor.Tensor); ok {
+			seen[t] = c
+			ins[i] = c
+		}
+	}
+	first = runOpOn(r, ins)
+	second = runOpOn(r, ins)
+	return first, second
+}
+
 // runOpOn executes the request through the operator API on the given tensor objects.
 func runOpOn(r OpReq, ins []tensor.Tensor) Outcome {
 	phase := "lookup"
@@ -593,11 +619,19 @@ type Traced struct {
 	Events  []Event
 	Model   *gonnx.Model
 	LoadErr error
+	Prior   int // proxy events produced by earlier Runs on the same model (RunGraphTracedAfter)
 }
 
 // RunGraphTraced loads the graph from its bytes, attaches the operator proxy
 // (configure may set Inject/Yield) and runs it once.
 func RunGraphTraced(g *Graph, feed map[string]*ref.T, configure func(*Proxy)) Traced {
+	return RunGraphTracedAfter(g, feed, nil, configure)
+}
+
+// RunGraphTracedAfter is RunGraphTraced on a model that has already executed the given
+// earlier Runs (their outcomes are ignored); Traced.Prior is the number of proxy events
+// those earlier Runs produced.
+func RunGraphTracedAfter(g *Graph, feed map[string]*ref.T, earlier []map[string]*ref.T, configure func(*Proxy)) Traced {
 	bytes := g.Bytes()
 	var tr Traced
 	var px *Proxy
@@ -614,6 +648,15 @@ func RunGraphTraced(g *Graph, feed map[string]*ref.T, configure func(*Proxy)) Tr
 		if configure != nil {
 			configure(px)
 		}
+		phase = "earlier run"
+		for _, f := range earlier {
+			ein := gonnx.Tensors{}
+			for k, v := range f {
+				ein[k] = ToTensor(v)
+			}
+			_, _ = m.Run(ein)
+		}
+		tr.Prior = len(px.Events())
 		phase = "run"
 		in := gonnx.Tensors{}
 		for k, v := range feed {
@@ -776,6 +819,22 @@ func NewSession(b []byte) *Session {
 	return s
 }
 
+// RunTensors runs the session's model once on the given tensor objects (a caller that
+// keeps its input buffers between Runs).
+func (s *Session) RunTensors(in gonnx.Tensors, outputs []string) Outcome {
+	return Capture(nil, func() ([]tensor.Tensor, error) {
+		res, err := s.M.Run(in)
+		if err != nil {
+			return nil, err
+		}
+		out := make([]tensor.Tensor, len(outputs))
+		for i, name := range outputs {
+			out[i] = res[name]
+		}
+		return out, nil
+	})
+}
+
 // Run runs the session's model once with fresh tensors built from feed.
 func (s *Session) Run(feed map[string]*ref.T, outputs []string) Outcome {
 	return Capture(nil, func() ([]tensor.Tensor, error) {
@@ -828,4 +887,17 @@ func ProtoFingerprint(m *gonnx.Model) uint64 {
 		}
 	}
 	return h
+}
+
+// RunOpOnWrapped executes the request through the operator API with every operand
+// passed through wrap (e.g. into a caller's own type that implements tensor.Tensor by
+// embedding *tensor.Dense).
+func RunOpOnWrapped(r OpReq, wrap func(tensor.Tensor) tensor.Tensor) Outcome {
+	ins := ToTensors(r.Inputs)
+	for i, t := range ins {
+		if t != nil {
+			ins[i] = wrap(t)
+		}
+	}
+	return runOpOn(r, ins)
 }
